@@ -323,3 +323,70 @@ def extracted_run(repo):
 def write_extracted_run(repo, coq_dir):
     from vlib import translate as tr
     return tr.write_if_changed(os.path.join(coq_dir, "Gen", "Extracted_run.v"), extracted_run(repo))
+
+
+# ------------------------------------------------------------------------------------------------
+# The loops of Condition (C05): __init__ (the part before the subscription loop; ONE iteration of the loop; what follows),
+# _populate_value and _remove_check_callbacks (ONE iteration each; the recursion into a nested condition is an effect)
+# -> coq/Gen/Extracted_condloops.v, bridged to call_cond / cond_subscribe / populate_ops / remove_ops of Kernel/Model.v by
+# coq/Kernel/CondLoopBridge.v; obligations in Props/C05_BridgeLoop.v.  The loops are `for event in self._events`: the
+# position is the hidden loop-carried local `k` (state record).  The mixed-environment check loop of __init__ is ONE
+# whitelisted statement (the model has one environment).
+
+CLOOP_CONS = [("FxEventInit", ""),            # super().__init__(env)
+              ("FxSetEvaluate", ""),          # self._evaluate = evaluate
+              ("FxSetEvents", ""),            # self._events = tuple(events)
+              ("FxCountZero", ""),            # self._count = 0
+              ("FxSucceedEmpty", ""),         # self.succeed(ConditionValue())
+              ("FxCheckSameEnv", ""),         # for event in self._events: if self.env != event.env: raise ValueError(..)
+              ("FxCheckOperand", ""),         # self._check(event)                       (the operand is already processed)
+              ("FxSubscribe", ""),            # event.callbacks.append(self._check)
+              ("FxAssertCallbacks", ""),      # assert isinstance(self.callbacks, list)
+              ("FxAppendBuild", ""),          # self.callbacks.append(self._build_value)
+              ("FxPopulateNested", ""),       # event._populate_value(value)             (a nested condition)
+              ("FxAppendLeaf", ""),           # value.events.append(event)               (a processed leaf)
+              ("FxRemoveCheck", ""),          # event.callbacks.remove(self._check)
+              ("FxRemoveNested", ""),         # event._remove_check_callbacks()
+              ("FxLoopAgain", "")]
+SAME_ENV_LOOP = """for event in self._events:
+    if self.env != event.env:
+        raise ValueError(
+            'It is not allowed to mix events from different '
+            'environments'
+        )"""
+CLOOP_FX = [("super().__init__(env)", "FxEventInit", []),
+            ("self._evaluate = evaluate", "FxSetEvaluate", []),
+            ("self._events = tuple(events)", "FxSetEvents", []),
+            ("self._count = 0", "FxCountZero", []),
+            ("self.succeed(ConditionValue())", "FxSucceedEmpty", []),
+            (SAME_ENV_LOOP, "FxCheckSameEnv", []),
+            ("self._check(event)", "FxCheckOperand", []),
+            ("event.callbacks.append(self._check)", "FxSubscribe", []),
+            ("assert isinstance(self.callbacks, list)", "FxAssertCallbacks", []),
+            ("self.callbacks.append(self._build_value)", "FxAppendBuild", []),
+            ("event._populate_value(value)", "FxPopulateNested", []),
+            ("value.events.append(event)", "FxAppendLeaf", []),
+            ("event.callbacks.remove(self._check)", "FxRemoveCheck", []),
+            ("event._remove_check_callbacks()", "FxRemoveNested", [])]
+CLOOP_READS = [("self._events", "n_events", "len"),
+               ("event.callbacks is None", "operand_processed", "bool"),
+               ("isinstance(event, Condition)", "operand_is_condition", "bool"),
+               ("event.callbacks and self._check in event.callbacks", "check_registered", "bool")]
+
+
+def extracted_condloops(repo):
+    from vlib import translate as tr
+    ev = os.path.join(repo, "onl", "sim", "events.py")
+    kw = dict(reads=CLOOP_READS, effects=CLOOP_FX, loop_again="FxLoopAgain", local_state=True, loop_index="k")
+    specs = [tr.FnSpec(ev, "Condition", "__init__", "gen_Condition_init_before", select="before_loop", **kw),
+             tr.FnSpec(ev, "Condition", "__init__", "gen_Condition_init_loop", select="loop", **kw),
+             tr.FnSpec(ev, "Condition", "_populate_value", "gen_Condition_populate_iter", select="loop", **kw),
+             tr.FnSpec(ev, "Condition", "_remove_check_callbacks", "gen_Condition_remove_iter", select="loop", **kw)]
+    return tr.gen_module("onl/sim/events.py: Condition.__init__ (before its subscription loop; ONE iteration of it and what follows), "
+                         "_populate_value, _remove_check_callbacks (ONE iteration each); state record = the position k in self._events",
+                         "cloop_st", "o_", [("k", "Z")], "cloop_fx", CLOOP_CONS, specs)
+
+
+def write_extracted_condloops(repo, coq_dir):
+    from vlib import translate as tr
+    return tr.write_if_changed(os.path.join(coq_dir, "Gen", "Extracted_condloops.v"), extracted_condloops(repo))
